@@ -76,6 +76,9 @@ type randomWorkload struct {
 	seeds    map[string][]byte // service request id -> seed the harness will answer with
 }
 
+// rndNeighbourServices: services defined next to the random service, whose names begin with its name.
+var rndNeighbourServices = []string{servicetypes.RandomServiceName + "-beacon", servicetypes.RandomServiceName + "2"}
+
 func newRandomWorkload() *randomWorkload {
 	return &randomWorkload{reqs: map[string]*rndReq{}, byCtx: map[string]string{}, seeds: map[string][]byte{}}
 }
@@ -136,12 +139,29 @@ func (w *randomWorkload) Next(block int) []rig.Tx {
 		for _, p := range w.extraProvs {
 			txs = append(txs, r.Mk(p, &rndTag{Kind: "setup"}, svcBind(p, servicetypes.RandomServiceName, "2stake", 100000, 5)))
 		}
+		// two other services whose names begin with the random service's name, with providers of their own (below)
+		if len(r.Accounts) >= 6 {
+			for i, name := range rndNeighbourServices {
+				txs = append(txs, r.Mk(r.Acc(4+i%2), &rndTag{Kind: "setup"}, svcDefine(r.Acc(4+i%2), name, servicetypes.RandomServiceSchemas)))
+			}
+		}
 		return txs
 	case 2:
 		w.setup++
+		var txs []rig.Tx
 		if len(w.extraProvs) > 0 {
 			p := w.extraProvs[0]
-			return []rig.Tx{r.Mk(p, &rndTag{Kind: "setup"}, &servicetypes.MsgDisableServiceBinding{ServiceName: servicetypes.RandomServiceName, Provider: p.Addr.String(), Owner: p.Addr.String()})}
+			txs = append(txs, r.Mk(p, &rndTag{Kind: "setup"}, &servicetypes.MsgDisableServiceBinding{ServiceName: servicetypes.RandomServiceName, Provider: p.Addr.String(), Owner: p.Addr.String()}))
+		}
+		if len(r.Accounts) >= 6 {
+			for _, name := range rndNeighbourServices {
+				for _, p := range []*rig.Account{r.Acc(4), r.Acc(5)} {
+					txs = append(txs, r.Mk(p, &rndTag{Kind: "neighbour-bind"}, svcBind(p, name, "1stake", 100000, 5)))
+				}
+			}
+		}
+		if len(txs) > 0 {
+			return txs
 		}
 	}
 	// answer outstanding seed requests (some are deliberately left to time out or answered with an error / by the wrong provider)
@@ -273,6 +293,8 @@ func (w *randomWorkload) Observe(br *rig.BlockRecord) {
 		}
 		run.Op("h=%d #%d random %s ok=%v %s", H, tx.Index, msgBrief(tx.Msgs), tx.OK(), logBrief(tx))
 		switch tag.Kind {
+		case "neighbour-bind":
+			run.Count("provider-bound-to-a-service-whose-name-begins-with-the-random-service's"+okSuffix(tx), 1)
 		case "request", "request-oracle":
 			run.Count(tag.Kind+okSuffix(tx), 1)
 			if !tx.OK() {
@@ -311,6 +333,20 @@ func (w *randomWorkload) Observe(br *rig.BlockRecord) {
 						return false
 					})
 					w.byCtx[rq.CtxID] = id
+					// whoever the seed request is addressed to is a provider of the random service
+					if cid, err := hex.DecodeString(rq.CtxID); err == nil && !w.quiet {
+						if rc, ok := r.K.Service.GetRequestContext(r.Ctx(), cid); ok {
+							for _, p := range rc.Providers {
+								w.run.Eval(1)
+								if pa, err := sdk.AccAddressFromBech32(p); err == nil {
+									if _, bound := r.K.Service.GetServiceBinding(r.Ctx(), servicetypes.RandomServiceName, pa); !bound {
+										w.run.Violation("C18:random:seed-request-addressed-to-a-provider-not-bound-to-the-random-service", map[string]any{"height": H, "provider": p},
+											"the seed request of oracle request %s (made at %d by %s) is addressed to %s, which has no binding of the service %q: nobody can ever answer it", id, H, m.Consumer, p, servicetypes.RandomServiceName)
+									}
+								}
+							}
+						}
+					}
 				}
 			}
 		}
